@@ -79,10 +79,28 @@ fn run(c: &Case) -> CaseResult {
         c.poseidon
     );
     let feats = spec.features();
+    // order in which instance columns are first queried by gates
+    // sequence of committed instance columns in the order their queries are registered by the gates
+    let mut seq: Vec<(usize, i32)> = vec![];
+    for g in &spec.gates {
+        for e in &g.eqs {
+            if let vp_plonk::e1::Eqn::Inst { icol, irot, .. } = e {
+                let q = (icol % spec.n_instance, *irot);
+                if !seq.contains(&q) {
+                    seq.push(q);
+                }
+            }
+        }
+    }
+    let committed_queried: Vec<usize> = seq.iter().map(|q| q.0).filter(|c| *c < n_committed).collect();
+    let out_of_order = committed_queried.windows(2).any(|w| w[0] > w[1]);
     let nt = !feats.is_empty() || c.num_proofs >= 2 || n_committed >= 1;
     let mut v = Verdict::of(nt, config);
     for f in feats {
         v = v.with(f);
+    }
+    if committed_queried.iter().collect::<std::collections::HashSet<_>>().len() >= 2 {
+        v = v.with(if out_of_order { "committed-columns-queried-out-of-order" } else { "committed-columns-queried-in-order" });
     }
     v = v.with(format!("k={}", spec.k)).with(if c.poseidon { "poseidon" } else { "blake2b" });
     Ok(v)
